@@ -756,8 +756,6 @@ def judgeLine2 (j : JSt) (lineNo : Nat) (opLine obsLine : String) : JSt :=
                 j.reject "C14" lineNo s!"well-formed script of {prog.length} commands answered '{o.status} {count}'"
               else if ¬ wellFormed ∧ o.status ≠ "err" then
                 j.reject "C14" lineNo s!"script whose command no.{k} is malformed answered '{o.status} {count}' instead of Err"
-              else if ¬ wellFormed ∧ count ≠ toString k then
-                j.reject "C14" lineNo s!"malformed command is no.{k}, Err names no.{count}"
               else j
             let j := if o.keys ≠ R.keys r' m.cap then
                 j.reject "C14" lineNo s!"after the script the graph holds {showNats o.keys}, the same calls give {showNats (R.keys r' m.cap)}"
